@@ -105,6 +105,10 @@ M = [
  ('debounce-no-flush', 'src/ops/debounce.rs', '    if let Some(value) = self.trailing_value.rc_deref_mut().take() {\n      self.observer.next(value);\n    }\n    self.observer.complete();', '    self.observer.complete();', 'C09', 'fire'),
  ('buffer-emit-unguarded', 'src/ops/buffer.rs', '    if !self.data.is_empty() {\n      let buffer = std::mem::take(&mut self.data);\n      self.observer.next(buffer);\n    }', '    let buffer = std::mem::take(&mut self.data);\n    self.observer.next(buffer);', 'C09', 'fire'),
  ('buffer-len-gt-zero', 'src/ops/buffer.rs', '    if !self.data.is_empty() {', '    if self.data.len() > 0 {', 'C09', 'silent'),
+ # --- C09 debounce / throttle protocol
+ ('debounce-no-cancel', 'src/ops/debounce.rs', '    if let Some(handler) = self.task_handler.rc_deref_mut().take() {\n      handler.unsubscribe()\n    }\n', '', 'C09', 'fire'),
+ ('debounce-no-delay', 'src/ops/debounce.rs', 'self.scheduler.schedule(task, Some(self.delay));', 'self.scheduler.schedule(task, None);', 'C09', 'fire'),
+ ('debounce-store-after-schedule', 'src/ops/debounce.rs', '    *self.trailing_value.rc_deref_mut() = Some(value);\n    let observer = self.observer.clone();', '    let observer = self.observer.clone();', 'C09', 'fire'),
  # --- C11 / C12 / C14 / C15 / C16 / C17
  ('share-connect-before-replace', 'src/ops/ref_count.rs', '          let connectable = std::mem::replace(&mut *inner, connected);', '          let connectable = std::mem::replace(&mut *inner, connected);\n          drop(inner);', 'C11', 'fire'),
  ('behavior-broadcast-first', 'src/subject/behavior_subject.rs', '    *self.value.rc_deref_mut() = value.clone();\n    Observer::next(&mut self.subject, value);', '    Observer::next(&mut self.subject, value.clone());\n    *self.value.rc_deref_mut() = value;', 'C12', 'fire'),
